@@ -20,9 +20,37 @@ import (
 )
 
 type concreteTx struct {
-	TypeURL string `json:"type_url"`
-	Wire    string `json:"wire"` // hex
-	Faults  []bool `json:"faults"`
+	TypeURL string       `json:"type_url"`
+	Wire    string       `json:"wire"` // hex
+	Faults  []bool       `json:"faults"`
+	Inner   []concreteTx `json:"inner,omitempty"` // a multi-message transaction
+}
+
+// concretiseTx turns an abstract transaction into concrete bytes (recursively for a batch).
+func concretiseTx(inst *Instance, m M, f []bool) concreteTx {
+	if gets(m, "type") == "Batch" {
+		tx := concreteTx{Faults: f}
+		for _, im := range arr(m, "msgs") {
+			tx.Inner = append(tx.Inner, concretiseTx(inst, im.(map[string]any), nil))
+		}
+		return tx
+	}
+	u, w := inst.Concretise(m)
+	return concreteTx{TypeURL: u, Wire: hex.EncodeToString(w), Faults: f}
+}
+
+func runConcrete(inst *Instance, tx concreteTx) TxResult {
+	if tx.Inner != nil {
+		var txs [][2]any
+		for _, in := range tx.Inner {
+			w, _ := hex.DecodeString(in.Wire)
+			txs = append(txs, [2]any{in.TypeURL, w})
+		}
+		r, _ := inst.RunBatch(txs, tx.Faults)
+		return r
+	}
+	wire, _ := hex.DecodeString(tx.Wire)
+	return inst.RunTx(tx.TypeURL, wire, tx.Faults)
 }
 type concreteHistory struct {
 	ID      int          `json:"id"`
@@ -61,8 +89,7 @@ func replayOn(inst *Instance, h concreteHistory, restart bool) []string {
 		if restart {
 			inst.RestartKeeper()
 		}
-		wire, _ := hex.DecodeString(tx.Wire)
-		r := inst.RunTx(tx.TypeURL, wire, tx.Faults)
+		r := runConcrete(inst, tx)
 		out = append(out, stepDigest(r, inst.Commit()))
 	}
 	return out
@@ -81,9 +108,9 @@ func recordHistory(tab *SymTab, id int, depth int, seed int64) (concreteHistory,
 	for i := 0; i < depth; i++ {
 		m, f := g.next()
 		m = jsonRoundTrip(m)
-		typeURL, wire := inst.Concretise(m)
-		r := inst.RunTx(typeURL, wire, f)
-		h.Txs = append(h.Txs, concreteTx{typeURL, hex.EncodeToString(wire), f})
+		ctx := concretiseTx(inst, m, f)
+		r := runConcrete(inst, ctx)
+		h.Txs = append(h.Txs, ctx)
 		digests = append(digests, stepDigest(r, inst.Commit()))
 		post, _ := inst.ProjectState()
 		ev := jsonRoundTrip(M{"msg": m, "obs": M{"res": r.Res, "post": post, "evs": inst.ProjectEvents(r.Events)}})
